@@ -185,12 +185,20 @@ func (m *Model) callEffects(c *ssa.CallCommon, out *Effects) {
 	out.ghost["$alloc"] = true
 	for _, callee := range m.callees(c) {
 		ce := m.funcEffects(callee)
-		if m.spec != nil {
-			if ct, ok := m.spec.Contracts[m.fnName[callee]]; ok {
-				for _, g := range ct.Updates {
-					out.ghost[g] = true
-				}
+		var ctr *Contract
+		if m.spec != nil && c.StaticCallee() != nil {
+			ctr = m.spec.Contracts[m.fnName[callee]]
+		}
+		if ctr != nil && (ctr.HasMod || len(ctr.Updates) > 0) {
+			// ghost effects of a function under contract are exactly its `updates` clause
+			// (proved at its returns); heap effects: see below
+			for _, g := range ctr.Updates {
+				out.ghost[g] = true
 			}
+			tmp := newEffects()
+			tmp.add(ce)
+			tmp.ghost = map[string]bool{"$alloc": true}
+			ce = tmp
 		}
 		if c.StaticCallee() != nil && m.spec != nil {
 			if ct, ok := m.spec.Contracts[m.fnName[callee]]; ok && ct.HasMod && len(ct.Modifies) == 0 {
@@ -204,9 +212,6 @@ func (m *Model) callEffects(c *ssa.CallCommon, out *Effects) {
 					if _, ok := out.fheap[k]; !ok {
 						out.fheap[k] = v
 					}
-				}
-				for k := range ce.ghost {
-					out.ghost[k] = true
 				}
 				continue
 			}
